@@ -50,7 +50,10 @@ var injectKinds = []string{"goto", "labelled-break", "labelled-continue", "selec
 	// pointer to an array with a yield in its body
 	"labelled-break-in-type-switch", "range-nil-ptr-array-index-only-yielding",
 	// defer / select in a clause of a switch in which NOTHING yields (the switch stays native)
-	"defer-in-nonyielding-switch-clause", "select-in-nonyielding-type-switch-clause"}
+	"defer-in-nonyielding-switch-clause", "select-in-nonyielding-type-switch-clause",
+	// a yield in the initialiser of an else-if whose HEAD condition is true in one round and
+	// false in the next: the initialiser belongs to the else path only
+	"yield-elseif-init-head-taken"}
 
 // rawInject returns the source text of the construct (placeholders as in templates).
 func rawInject(kind string, tag func() int, control bool) string {
@@ -107,6 +110,8 @@ func rawInject(kind string, tag func() int, control bool) string {
 		return fmt.Sprintf("if «Yield»(75); len(\"x\") == 1 {\n\t«Yield»(74)\n}\nvrt.E(%d)", tag())
 	case "yield-elseif-init-yielding-branch":
 		return fmt.Sprintf("if len(\"x\") == 2 {\n\tvrt.E(%d)\n} else if «Yield»(73); len(\"x\") == 1 {\n\t«Yield»(72)\n}\nvrt.E(%d)", tag(), tag())
+	case "yield-elseif-init-head-taken":
+		return fmt.Sprintf("for f9 := 0; f9 < 2; f9++ {\n\tif vrt.B(%d, f9 == 0) {\n\t\tvrt.E(%d)\n\t} else if «Yield»(73 + f9); f9 > 5 {\n\t\tvrt.E(%d)\n\t} else {\n\t\t«Yield»(72)\n\t}\n}", tag(), tag(), tag())
 	case "yield-if-init-yielding-else":
 		return fmt.Sprintf("if «Yield»(71); len(\"x\") == 2 {\n\tvrt.E(%d)\n} else {\n\t«Yield»(70)\n}", tag())
 	case "yield-for-init-in-func-range":
